@@ -157,7 +157,7 @@ let debug = ref true
 let cmd_body (args : string list) : string =
   match args with
   | [input; stop] ->
-    let (evs, pres) = VcdBody.parse_body !debug (bytes_of_hex input) (nat_of_int (int_of_string stop)) in
+    let (evs, pres) = VcdBody.parse_body !debug (bytes_of_hex input) (n_of_int (int_of_string stop)) in
     (match pres with
      | VcdBody.PPanic -> "PANIC"
      | _ ->
